@@ -341,6 +341,39 @@ def _judge(run, name, cfg, row, ref, env, td, acts, kind, info, stats):
     run.log.add("judge", kind, str(info), verdict, exc is None)
 
 
+def _complementary_pair(run, name, cfg, row, ref0, env, acts, rng):
+    """Two corrupted solutions of the same instance in one batch whose faults mirror each other (one visits y
+    twice and leaves out x, the other visits x twice and leaves out y): each is infeasible on its own, so the
+    batch has to be rejected -- node counts taken over the whole batch instead of per solution would cancel."""
+    nodes = sorted({a for a in acts if a != 0 or name not in DEPOT_ENVS})
+    if len(nodes) < 2:
+        return
+    x, y = rng.sample(nodes, 2)
+    a1 = [y if a == x else a for a in acts]
+    a2 = [x if a == y else a for a in acts]
+    v1, w1 = _verdict(ref0, a1)
+    v2, w2 = _verdict(ref0, a2)
+    if v1 != "infeasible" or v2 != "infeasible":
+        run.probe("complementary_pair_not_clearly_infeasible")
+        return
+    try:
+        td2 = E.reset(env, cfg, [row, row])
+        env.check_solution_validity(td2, torch.tensor([a1, a2], dtype=torch.long))
+        exc = None
+    except Exception as e:  # noqa: BLE001 - any exception is a rejection
+        exc = e
+    run.stats["checker_calls"] += 1
+    run.probe("complementary_pair_checked")
+    run.fault("action:complementary_pair")
+    run.log.add("judge", "complementary_pair", f"{x}<->{y}", "infeasible", exc is None)
+    if exc is None:
+        run.violate(name, "checker_accepts_infeasible", f"complementary_pair({x},{y}): the batch of {a1} (violates "
+                    f"{w1[:1]}) and {a2} (violates {w2[:1]}) on the same instance was accepted: each solution is "
+                    "infeasible on its own", constraint=w1[0][0].split(":")[0], fault="complementary_pair",
+                    info=[x, y], actions=a1, actions_b=a2, cfg=cfg, instance=E.enc_row(row))
+        raise StopRun()
+
+
 def _constructive(run, env, cfg, row):
     import random
 
@@ -420,6 +453,7 @@ def _constructive(run, env, cfg, row):
             continue  # consecutive depot visits while demand remains: encoding convention, not generated
         _judge(run, name, cfg, row, ref0, env, td0, b, kind, info, stats)
         run.fault("action:" + kind)
+    _complementary_pair(run, name, cfg, row, ref0, env, acts, rng)
     for kind, info, r2 in instance_faults(name, row, acts, rng):
         ref2 = RR.make_ref(name, r2, cfg)
         try:
